@@ -1264,6 +1264,30 @@ fn w_exec(st: &mut WState, step: &WStep, rep: &mut Report) -> Result<Result<(), 
     Ok(r.map_err(|e| e.kind()))
 }
 
+/// Runs `pre` without faults on a new file and returns the stored bytes.
+fn prebuilt_image(version: Version, pre: &[WStep], rep: &mut Report) -> Option<Vec<u8>> {
+    let (file, shared) = MonFile::new(Vec::new());
+    let cf = match version {
+        Version::V4 => OpenOptions::new().max_buffer_size(1024).create_with(file),
+        Version::V3 => CompoundFile::create_with_version(Version::V3, file).and_then(|c| OpenOptions::new().max_buffer_size(1024).open_with(c.into_inner())),
+    }
+    .ok()?;
+    let mut st = WState { shared: shared.clone(), cf, handles: Vec::new(), api: 0, writes: 0, structure_tainted: false, taint_epoch: 0, unrecovered: false, torn: false, state_set: Vec::new(), durable: Vec::new(), own_file: true, interlude: None, pending: false };
+    for step in pre {
+        match w_exec(&mut st, step, rep) {
+            Ok(Ok(())) => {}
+            _ => return None,
+        }
+    }
+    for h in st.handles.iter_mut().flatten() {
+        h.stream.flush().ok()?;
+    }
+    st.cf.flush().ok()?;
+    let bytes = shared.bytes();
+    CompoundFile::open_strict(std::io::Cursor::new(bytes.clone())).ok()?;
+    Some(bytes)
+}
+
 fn w_run(script: &[WStep], version: Version, faults: Vec<Fault>, rep: &mut Report, start: Option<&[u8]>) -> Result<(u64, [u64; 3]), (String, String)> {
     w_run_observed(script, version, faults, rep, None, start).map(|x| (x.0, x.2))
 }
@@ -1282,11 +1306,39 @@ pub fn run_c13(ctx: &Ctx, rep: &mut Report) {
         crate::guard::case_begin(case);
         let mut rng = Rng::derive(ctx.seed, &[13, w]);
         let version = if w % 2 == 0 { Version::V3 } else { Version::V4 };
-        let script = build_write_script(&mut rng, w);
+        let mut script = build_write_script(&mut rng, w);
         // family D starts from a version 3 image that ends just below 109 FAT sectors
         // (built once, fault-free; every run works on a copy)
-        let start_image: Option<Vec<u8>> = if w % 16 == 8 { difat_start_image() } else { None };
-        if w % 16 == 8 && start_image.is_none() {
+        let mut start_image: Option<Vec<u8>> = if w % 16 == 8 { difat_start_image() } else { None };
+        // families F and G: what comes before the marker (tens of thousands of underlying
+        // calls that are not swept) is run once, fault-free, and every faulty run starts
+        // from a copy of the resulting file
+        // (possible whenever no handle is open at the marker: families C, E, F, G)
+        let marker_at = script.iter().position(|s| matches!(s, WStep::Marker));
+        let prebuilt = w % 16 != 8
+            && marker_at.map_or(false, |k| {
+                let mut open = std::collections::BTreeSet::new();
+                for st in &script[..k] {
+                    match st {
+                        WStep::OpenNew { slot, .. } | WStep::OpenExisting { slot, .. } => {
+                            open.insert(*slot);
+                        }
+                        WStep::CloseHandle { slot } => {
+                            open.remove(slot);
+                        }
+                        _ => {}
+                    }
+                }
+                open.is_empty()
+            });
+        if prebuilt {
+            if let Some(k) = marker_at {
+                start_image = prebuilt_image(version, &script[..k], rep);
+                script = script[k + 1..].to_vec();
+                rep.count("workloads_started_from_a_prebuilt_image");
+            }
+        }
+        if (w % 16 == 8 || prebuilt) && start_image.is_none() {
             rep.inconclusive(format!("write workload {w}: the start image could not be built"));
             w += ctx.nshards;
             continue;
